@@ -667,7 +667,13 @@ Lemma close_table_cell_s : forall v e ks s s',
 Proof.
   intros v e ks s s' Hs H. unfold close_table_cell in H.
   bind_inv H as pr Epr. cbv zeta in H.
-  bind_inv H as rows0 Erows0. bind_inv H as dummy Edummy.
+  (* the two early returns of the repaired _close_table_cell *)
+  destruct (c_tree s) as [|tb0 root0] eqn:Eroot0; [injection H as <-; exact Hs|].
+  rewrite <- Eroot0 in H.
+  bind_inv H as rows0 Erows0.
+  destruct rows0 as [|rb0 rows1] eqn:Erows1; [injection H as <-; exact Hs|].
+  rewrite <- Erows1 in H.
+  bind_inv H as dummy Edummy.
   bind_inv H as s1 Es1. bind_inv H as span Espan.
   assert (Hs1 : sst s1).
   { clear H Espan.
@@ -707,7 +713,9 @@ Proof.
     split; [|split]; cbn; try assumption.
     eapply upd_row_s; [|exact Ht|exact Eroot].
     intros cs cs' Hcs Hcs'. cbv beta in Hcs'. destruct (env_dup v).
-    + destruct cs as [|c0 r]; [discriminate Hcs'|].
+    + destruct cs as [|c0 r].
+      { injection Hcs' as Hcs'. subst cs'. constructor; [|exact Hcs].
+        apply snode_NL. constructor; [|constructor]. cbn. split; constructor. }
       injection Hcs' as Hcs'. subst cs'. inversion Hcs; subst.
       constructor; [apply copy_node_s; assumption|exact Hcs].
     + injection Hcs' as Hcs'. subst cs'. constructor; [|exact Hcs].
@@ -1399,7 +1407,7 @@ Lemma hmerge_loop_sim : forall v ti ri n rg s s',
                     (fun cs =>
                        if env_dup v then
                          match cs with
-                         | [] => Err IndexError
+                         | [] => Ok (NL [NP new_empty_par] :: cs)
                          | c :: _ => Ok (copy_node c :: cs)
                          end
                        else Ok (NL [NP new_empty_par] :: cs)) ;;
@@ -1414,7 +1422,7 @@ Lemma hmerge_loop_sim : forall v ti ri n rg s s',
                     (fun cs =>
                        if env_dup (plain_env v) then
                          match cs with
-                         | [] => Err IndexError
+                         | [] => Ok (NL [NP new_empty_par] :: cs)
                          | c :: _ => Ok (copy_node c :: cs)
                          end
                        else Ok (NL [NP new_empty_par] :: cs)) ;;
@@ -1433,7 +1441,7 @@ Proof.
       apply IH. exact H.
     + intros cs cs' Hcs. cbv beta in Hcs |- *. change (env_dup (plain_env v)) with (env_dup v).
       destruct (env_dup v).
-      * destruct cs as [|c0 r]; [discriminate Hcs|]. injection Hcs as <-.
+      * destruct cs as [|c0 r]; [injection Hcs as <-; reflexivity|]. injection Hcs as <-.
         cbn [map]. rewrite copy_node_proj. reflexivity.
       * injection Hcs as <-. reflexivity.
 Qed.
@@ -1447,24 +1455,20 @@ Proof.
   change (c_tree (proj_cst rg s)) with (map proj_node (c_tree s)).
   change (env_dup (plain_env v)) with (env_dup v).
   rewrite map_length.
-  bind_inv H as rows0 Erows0. bind_inv H as dummy Edummy.
+  (* the two early returns of the repaired _close_table_cell *)
+  destruct (c_tree s) as [|tb0 root0] eqn:Eroot0; [injection H as <-; reflexivity|].
+  cbn [map]. change (S (length root0)) with (length (tb0 :: root0)).
+  rewrite <- Eroot0 in H |- *.
+  bind_inv H as rows0 Erows0.
+  rewrite (as_list_sim _ _ Erows0). cbn [bind].
+  destruct rows0 as [|rb0 rows1] eqn:Erows1; [injection H as <-; reflexivity|].
+  rewrite map_length. cbn [map].
+  rewrite <- Erows1 in H |- *.
+  bind_inv H as dummy Edummy.
+  rewrite (as_list_sim _ _ Edummy). cbn [bind].
   bind_inv H as s1 Es1. bind_inv H as span Espan.
-  assert (Erows0' : match map proj_node (c_tree s) with
-                    | [] => Err IndexError
-                    | t :: _ => as_list t
-                    end = Ok (map proj_node rows0)).
-  { destruct (c_tree s) as [|t0 tr]; [discriminate Erows0|]. cbn [map].
-    apply as_list_sim. exact Erows0. }
-  rewrite Erows0'. cbn [bind].
-  assert (Edummy' : match map proj_node rows0 with
-                    | [] => Err IndexError
-                    | r :: _ => as_list r
-                    end = Ok (map proj_node dummy)).
-  { destruct rows0 as [|r0 rr]; [discriminate Edummy|]. cbn [map].
-    apply as_list_sim. exact Edummy. }
-  rewrite Edummy'. cbn [bind]. rewrite map_length.
   match goal with |- bind ?X _ = _ => assert (Es1' : X = Ok (proj_cst rg s1)) end.
-  { clear H Espan Erows0' Edummy'.
+  { clear H Espan.
     destruct (env_dup v && is_continuation pr && (1 <? length rows0)%nat)%bool.
     - bind_inv Es1 as sa Esa. bind_inv Es1 as t Et. bind_inv Es1 as rows Er.
       bind_inv Es1 as prev Ep. bind_inv Es1 as cells Ec.
@@ -1496,7 +1500,7 @@ Proof.
         destruct cs as [|c0 r]; [discriminate Hcs|]. injection Hcs as <-.
         cbn [map]. rewrite copy_node_proj. reflexivity.
     - injection Es1 as <-. reflexivity. }
-  rewrite Es1'. cbn [bind]. rewrite Espan. cbn [bind].
+  rewrite Es1'. cbn [bind].
   apply (hmerge_loop_sim v). exact H.
 Qed.
 
@@ -1727,7 +1731,13 @@ Lemma close_table_cell_rg : forall v e ks s s',
 Proof.
   intros v e ks s s' H. unfold close_table_cell in H.
   bind_inv H as pr Epr. cbv zeta in H.
-  bind_inv H as rows0 Erows0. bind_inv H as dummy Edummy.
+  (* the two early returns of the repaired _close_table_cell *)
+  destruct (c_tree s) as [|tb0 root0] eqn:Eroot0; [injection H as <-; reflexivity|].
+  rewrite <- Eroot0 in H.
+  bind_inv H as rows0 Erows0.
+  destruct rows0 as [|rb0 rows1] eqn:Erows1; [injection H as <-; reflexivity|].
+  rewrite <- Erows1 in H.
+  bind_inv H as dummy Edummy.
   bind_inv H as s1 Es1. bind_inv H as span Espan.
   assert (Hs1 : c_ranges s1 = c_ranges s).
   { clear H Espan.
